@@ -55,6 +55,8 @@ type c03Unkeyed struct {
 type c03MsgRev struct {
 	Fields  map[string]c03FieldRev `json:"fields"`
 	Unkeyed *c03Unkeyed            `json:"unkeyed_effect,omitempty"`
+	// second round: writes whose key the sender chooses (c03_index.go), by written function
+	IndexWrites map[string]c03IdxRev `json:"index_writes,omitempty"`
 }
 
 type c03Table struct {
@@ -229,6 +231,7 @@ type c03Fn struct {
 	req    string              // name of the request parameter (or receiver, for ValidateBasic)
 	auth   map[string]bool     // parameter names bound to the authority (inlined guard functions)
 	assign map[string][]ast.Expr
+	bind   map[string]map[string]bool // parameter name -> request paths it was called with (c03_index.go)
 }
 
 const c03Auth = "<authority>"
@@ -314,6 +317,12 @@ func (a *c03Fn) deriv(e ast.Expr, out map[string]bool, guard map[string]bool) {
 	}
 	switch x := e.(type) {
 	case *ast.Ident:
+		if b, ok := a.bind[x.Name]; ok {
+			for k := range b {
+				out[k] = true
+			}
+			return
+		}
 		if guard[x.Name] {
 			return
 		}
@@ -608,12 +617,17 @@ func extractC03(c *Ctx) error {
 	}
 	seenMsg := map[string]bool{}
 
-	c.P("From Paloma Require Import Auth.Discipline.")
+	c.P("From Paloma Require Import Auth.Discipline Auth.Objects Auth.Index.")
 	c.P("")
 	var specLines, nonId, handlerLines []string
 	var unreviewed []string
 	nHandlers, nRows, nLeaves := 0, 0, 0
 	discCount := map[string]int{}
+	writers, perModFuncs, err := c03Writers(c)
+	if err != nil {
+		return err
+	}
+	var idxRows []c03IdxRow
 	for _, mod := range c03Modules {
 		tfiles, err := c.ParseDir(filepath.Join("x", mod, "types"))
 		if err != nil {
@@ -699,6 +713,11 @@ func extractC03(c *Ctx) error {
 			reqName := "_"
 			if len(hd.Type.Params.List[1].Names) == 1 {
 				reqName = hd.Type.Params.List[1].Names[0].Name
+			}
+			{
+				rows, unrev := c03IndexRows(c, name, hd, reqName, perModFuncs[mod], writers, rev.IndexWrites)
+				idxRows = append(idxRows, rows...)
+				unreviewed = append(unreviewed, unrev...)
 			}
 			an := &c03Fn{c: c, req: reqName, auth: map[string]bool{}, assign: map[string][]ast.Expr{}}
 			an.collectAssigns(hd.Body)
@@ -1048,6 +1067,37 @@ func extractC03(c *Ctx) error {
 	c.P("Definition reviewed_non_identity : list (string * string) := [")
 	c.P("  %s", strings.Join(nonId, ";\n  "))
 	c.P("].")
+	// ---- second round: index writes and the two code shapes of the object model ----
+	c.P("")
+	c.P("(** Index writes: store writes whose key the sender chooses, with the guards found before them")
+	c.P("    in the AST and the reviewed expectation (tables/c03_fields.json, index_writes). *)")
+	c.P("Definition index_rows : list idxrow := [")
+	var il []string
+	var bindGuard []string
+	foundBind := false
+	for _, r := range idxRows {
+		il = append(il, fmt.Sprintf("  MkIdx %s %s %s %s %s %s %s %s", CoqStr(r.Rpc), CoqStr(r.Callee), CoqStrList(r.WFields), CoqStrList(r.Absent), CoqStrList(r.Owner),
+			CoqStr(r.Kind), CoqStrList(r.Key), CoqStrList(r.OKey)))
+		if r.Rpc == "skyway.MsgSetERC20ToTokenDenom" && r.Callee == "setDenomToERC20.Save" {
+			bindGuard, foundBind = r.Absent, true
+		}
+	}
+	c.P("%s", strings.Join(il, ";\n"))
+	c.P("].")
+	if !foundBind {
+		return fmt.Errorf("skyway SetERC20ToTokenDenom: the write setDenomToERC20 was not found (shape not understood)")
+	}
+	tfCalls, err := c03TfGenesis(c)
+	if err != nil {
+		return err
+	}
+	c.P("")
+	c.P("(** Shapes of the object model (Auth/Objects.v): the request fields the duplicate-binding lookup of")
+	c.P("    SetERC20ToTokenDenom is keyed by; the keeper calls of tokenfactory's InitGenesis per imported denom, in order. *)")
+	c.P("Definition code_shape : shape := MkShape %s %s.", CoqStrList(bindGuard), CoqStrList(tfCalls))
+	c.Info("index_rows", len(idxRows))
+	c.Info("bind_guard_fields", bindGuard)
+	c.Info("tf_import_calls", tfCalls)
 	c.Info("handlers", nHandlers)
 	c.Info("rows", nRows)
 	c.Info("fields_reviewed", nLeaves)
